@@ -855,8 +855,11 @@ def run13(case):
                     # the listing (index) may look fine while program memory holds something else
                     nums, problem = E.peek_chain(len(full) + len(before) + 3)
                     if problem is not None or nums != sorted(M.lines):
-                        E.x(b'SAVE "C:GHOST",A')
-                        ghost = _read(os.path.join(root, 'c', 'GHOST.BAS'))
+                        try:
+                            E.x(b'SAVE "C:GHOST",A')
+                            ghost = _read(os.path.join(root, 'c', 'GHOST.BAS'))
+                        except EngineCrash as e:
+                            ghost = b('[internal error %s: %s]' % (e.signature, e.exc_msg))
                         run.violate('C13', 'load-failed-midway:memory-disagrees-with-listing:%s-file' % kind,
                                     'LOAD of a %s file failed with %r after an injected read error; LIST shows lines %r but the '
                                     'line links from DS:30h give %r (%s) and SAVE,A (sequential scan of program memory) writes %r' % (
